@@ -1020,3 +1020,305 @@ theorem fixDelete_rep : ∀ fuel, FixDeleteSpec (V := V) fuel := by
           exact h2
 
 end ITree
+
+namespace ITree
+variable {V : Type}
+
+/-- `remove_parents_child`-style link update: the hole of `f :: K` gets a new occupant index without touching
+the occupant (used with `EMPTY_REF` and with the NIL scratch slot) -/
+theorem removeParentsChild_ctx {a : Arena V} (hsize : a.nodes.size ≤ EMPTY) {f : Frame (Ent V)} {K : Ctx (Ent V)}
+    {old new : Nat} (hc : RepCtx a (f :: K) old f.s) (hold : old ∉ f.sib.slots) (holdne : old ≠ EMPTY)
+    (hnd : (ctxSlots (f :: K)).Nodup) :
+    ∃ a', a.removeParentsChild f.s old new = some a' ∧ RepCtx a' (f :: K) new f.s ∧
+      (∀ j, j ≠ f.s → a'.node j = a.node j) ∧ a'.root = a.root ∧
+      a'.unused = a.unused ∧ a'.cap = a.cap ∧ a'.dflt = a.dflt ∧ a'.nodes.size = a.nodes.size := by
+  obtain ⟨_, pn, hpn, hpr, hpe, hside, hrest⟩ := hc
+  have hplt := node_lt hpn
+  simp only [ctxSlots, List.nodup_cons, List.mem_append, not_or] at hnd
+  obtain ⟨⟨hfsib, hfk⟩, _⟩ := hnd
+  cases hs : f.side with
+  | L =>
+    simp only [hs] at hside
+    refine ⟨a.upd f.s fun m => { m with left := new }, ?_, ?_, ?_, by simp, by simp, by simp, by simp, by simp⟩
+    · simp only [Arena.removeParentsChild, hpn, Option.bind_eq_bind, Option.bind_some, hside.1, beq_self_eq_true,
+        Bool.true_or, Bool.not_true, Bool.false_eq_true, if_false, if_true]
+      exact Arena.setLeft_eq _ hplt
+    · refine ⟨rfl, { pn with left := new }, by simp [hpn], hpr, hpe, ?_, hrest.upd_other _ hfk⟩
+      simp only [hs]
+      exact ⟨trivial, hside.2.upd_other _ hfsib⟩
+    · intro j hj; simp [Ne.symm hj]
+  | R =>
+    simp only [hs] at hside
+    have hne : pn.left ≠ old := by
+      intro h
+      by_cases he : pn.left = EMPTY
+      · omega
+      · exact hold (h ▸ hside.2.rootIdx_mem he)
+    have hb : (pn.left == old) = false := by simpa using hne
+    refine ⟨a.upd f.s fun m => { m with right := new }, ?_, ?_, ?_, by simp, by simp, by simp, by simp, by simp⟩
+    · simp only [Arena.removeParentsChild, hpn, Option.bind_eq_bind, Option.bind_some, hside.1, beq_self_eq_true,
+        Bool.or_true, Bool.not_true, Bool.false_eq_true, if_false, hb]
+      exact Arena.setRight_eq _ hplt
+    · refine ⟨rfl, { pn with right := new }, by simp [hpn], hpr, hpe, ?_, hrest.upd_other _ hfk⟩
+      simp only [hs]
+      exact ⟨trivial, hside.2.upd_other _ hfsib⟩
+    · intro j hj; simp [Ne.symm hj]
+
+/-- `put_back` is `Pool.free` -/
+theorem putBack_pool (a : Arena V) (i : Nat) : poolOf (a.putBack i) = (poolOf a).free i := by
+  simp [poolOf, Arena.putBack, Pool.free]
+
+end ITree
+
+namespace ITree
+variable {V : Type}
+
+/-- the second half of `delete_index`: unlink the node `del` (which has at most one child), repair, free -/
+def Arena.unlink (a : Arena V) (del ndLeft ndRight ndParent : Nat) (ndRed : Bool) : Option (Arena V) := do
+  let fuel := a.nodes.size + 1
+  let a ←
+    if ndLeft != EMPTY then do
+      let a ← a.replaceParentsChild ndParent del ndLeft
+      Arena.fixDelete fuel a ndLeft
+    else if ndRight != EMPTY then do
+      let a ← a.replaceParentsChild ndParent del ndRight
+      Arena.fixDelete fuel a ndRight
+    else if ndParent == EMPTY then
+      pure { a with root := EMPTY }
+    else if !ndRed then do
+      let a ← a.modify 0 fun nd => { nd with parent := ndParent, left := EMPTY, right := EMPTY, red := true }
+      let a ← a.removeParentsChild ndParent del 0
+      let a ← Arena.fixDelete fuel a 0
+      let nil ← a.node 0
+      a.removeParentsChild nil.parent 0 EMPTY
+    else a.removeParentsChild ndParent del EMPTY
+  return a.putBack del
+
+theorem deleteIndex_eq (a : Arena V) (index : Nat) :
+    a.deleteIndex index = (a.node index).bind fun n =>
+      if (n.left != EMPTY && n.right != EMPTY) = true then
+        (Arena.findLeftMinimum (a.nodes.size + 1) a n.right).bind fun succ => (a.node succ).bind fun sn =>
+          (a.setEnt index sn.ent).bind fun a' => a'.unlink succ sn.left sn.right sn.parent sn.red
+      else a.unlink index n.left n.right n.parent n.red := by
+  simp only [Arena.deleteIndex, Arena.unlink, Option.bind_eq_bind, Option.pure_def, Option.bind_some]
+
+end ITree
+
+namespace ITree
+variable {V : Type}
+
+/-- model of the second half of `delete_index` at a node with at most one child, in context `KK` -/
+def unlinkM (KK : Ctx (Ent V)) (c : Color) (l r : T (Ent V)) : Option (Ctx (Ent V) × T (Ent V)) :=
+  match l, r with
+  | .node .., _ => (fixUp KK true).map (·, l)
+  | .leaf, .node .. => (fixUp KK true).map (·, r)
+  | .leaf, .leaf =>
+    match KK with
+    | [] => some ([], .leaf)
+    | _ :: _ => (fixUp KK (c == .black)).map (·, .leaf)
+
+theorem ctx_fuel {a : Arena V} {KK : Ctx (Ent V)} {i p : Nat} (hc : RepCtx a KK i p) (hnd : (ctxSlots KK).Nodup) :
+    KK.length < a.nodes.size + 1 := by
+  have h1 := ctxSlots_length KK
+  have h2 := nodup_lt_length _ _ hnd hc.slots_lt
+  omega
+
+/-- replacing the unlinked node by its only child, then repairing -/
+theorem unlink_child {a : Arena V} (hsize : a.nodes.size ≤ EMPTY) {KK : Ctx (Ent V)} {tC : T (Ent V)}
+    {del p c : Nat} {nd : ANode V}
+    (hc : RepCtx a KK del p) (hdel : a.node del = some nd) (hC : Rep a c del tC) (hCnl : tC ≠ .leaf)
+    (hnd : (del :: (tC.slots ++ ctxSlots KK)).Nodup)
+    {KK' : Ctx (Ent V)} (hm : fixUp KK true = some KK') :
+    ∃ a', (a.replaceParentsChild p del c).bind (fun a1 => Arena.fixDelete (a.nodes.size + 1) a1 c) = some a' ∧
+      Rep a' a'.root EMPTY (plug KK' tC) ∧
+      a'.unused = a.unused ∧ a'.cap = a.cap ∧ a'.dflt = a.dflt ∧ a'.nodes.size = a.nodes.size := by
+  cases tC with
+  | leaf => exact absurd rfl hCnl
+  | node cc lc sc ec rc =>
+  obtain ⟨rfl, nc, hnc, _, hcr, hce, hcl, hcrr⟩ := hC
+  have hclt := node_lt hnc
+  obtain ⟨a1, h1, hc1, hn1, hoth1, _, hu1, hcap1, hd1, hs1⟩ :=
+    replaceParentsChild_ctx (a := a) (k := KK) (old := del) (new := c) (p := p) hsize hc hnc ⟨_, hdel⟩
+      (by slots_tac hnd) (by slots_tac hnd) (by slots_tac hnd)
+  have hpne : ∀ s, s < a.nodes.size → s ∉ ctxSlots KK → p ≠ s := fun s h1 h2 => hc.parent_ne hsize h1 h2
+  have hkeep : ∀ s ∈ lc.slots ++ rc.slots, a1.node s = a.node s := by
+    intro s hs
+    have hlt : s < a.nodes.size := by
+      simp only [List.mem_append] at hs
+      rcases hs with h | h
+      · exact hcl.slots_lt s h
+      · exact hcrr.slots_lt s h
+    refine hoth1 s ?_ (Ne.symm (hpne s hlt ?_))
+    · revert hs; slots_tac hnd
+    · revert hs; slots_tac hnd
+  have hC1 : Rep a1 c p (.node cc lc c ec rc) :=
+    ⟨rfl, _, hn1, rfl, hcr, hce, Rep.congr (fun s hs => hkeep s (by simp [hs])) hcl,
+      Rep.congr (fun s hs => hkeep s (by simp [hs])) hcrr⟩
+  simp only [fixUp] at hm
+  cases hfu : fixUpD KK true with
+  | none => simp [hfu] at hm
+  | some x =>
+  obtain ⟨K2, d2⟩ := x
+  simp only [hfu, Option.map_some, Option.some.injEq] at hm
+  subst hm
+  have hfuel : KK.length < a.nodes.size + 1 := ctx_fuel hc (by slots_tac hnd)
+  obtain ⟨a2, h2, hc2, hn2, hu2, hcap2, hd2, hs2⟩ := fixDelete_rep (a.nodes.size + 1) a1 KK _ c p
+    (by rw [hs1]; exact hsize) hfuel hc1 hC1 (by simp) (by slots_tac hnd) K2 d2 hfu
+  exact ⟨a2, by rw [h1]; exact h2, Rep.plug hc2 hn2, by rw [hu2, hu1], by rw [hcap2, hcap1], by rw [hd2, hd1],
+    by rw [hs2, hs1]⟩
+
+end ITree
+
+namespace ITree
+variable {V : Type}
+
+/-- the repair only rearranges the context: same slots -/
+theorem fixUpD_slots {k k' : Ctx (Ent V)} {d d' : Bool} (h : fixUpD k d = some (k', d')) :
+    (ctxSlots k').Perm (ctxSlots k) := by
+  obtain ⟨h1, h2⟩ := fixUpD_loc k d h
+  have e : (ITree.plug k' (.leaf : T (Ent V))).slots = (ITree.plug k .leaf).slots := by
+    simp only [T.slots, toList_plug, h1, h2]
+  have p1 := slots_plug k' (.leaf : T (Ent V))
+  have p2 := slots_plug k (.leaf : T (Ent V))
+  simp only [T.slots_leaf, List.nil_append] at p1 p2
+  exact p1.symm.trans (e ▸ p2)
+
+/-- **the second half of `delete_index`** (unlink a node with at most one child, repair, free its slot) -/
+theorem unlink_rep {a : Arena V} (hsize : a.nodes.size ≤ EMPTY) {KK : Ctx (Ent V)} {cD : Color} {lD rD : T (Ent V)}
+    {eD : Ent V} {del p : Nat}
+    (hc : RepCtx a KK del p) (hr : Rep a del p (.node cD lD del eD rD))
+    (hnd : ((T.node cD lD del eD rD).slots ++ ctxSlots KK).Nodup)
+    (h0 : 0 < a.nodes.size) (h0s : 0 ∉ (T.node cD lD del eD rD).slots ++ ctxSlots KK)
+    {KK' : Ctx (Ent V)} {repl : T (Ent V)} (hm : unlinkM KK cD lD rD = some (KK', repl)) :
+    ∃ a', a.unlink del lD.rootIdx rD.rootIdx p (isRedC cD) = some a' ∧ Rep a' a'.root EMPTY (plug KK' repl) ∧
+      poolOf a' = (poolOf a).free del ∧ a'.nodes.size = a.nodes.size ∧ a'.dflt = a.dflt := by
+  obtain ⟨_, nd, hdel, hdp, hdr, hde, hl, hrr⟩ := hr
+  have hdlt := node_lt hdel
+  cases lD with
+  | node cl ll sl el rl =>
+    simp only [unlinkM] at hm
+    cases hfu : fixUp KK true with
+    | none => simp [hfu] at hm
+    | some K2 =>
+    simp only [hfu, Option.map_some, Option.some.injEq, Prod.mk.injEq] at hm
+    obtain ⟨rfl, rfl⟩ := hm
+    have hli : nd.left = sl := hl.1
+    rw [hli] at hl
+    have := node_lt hl.2.choose_spec.1
+    have hne : (sl != EMPTY) = true := by simp; omega
+    obtain ⟨a', h1, h2, hu, hcap, hd, hs⟩ := unlink_child hsize hc hdel hl (by simp) (by slots_tac hnd) hfu
+    refine ⟨a'.putBack del, ?_, Rep.congr (a := a') (fun _ _ => rfl) h2, ?_, by simp [Arena.putBack, hs],
+      by simp [Arena.putBack, hd]⟩
+    · simp only [Arena.unlink, T.rootIdx, hne, if_true, Option.bind_eq_bind, Option.pure_def, Option.bind_assoc] at h1 ⊢
+      rw [← Option.bind_assoc, h1]
+      rfl
+    · rw [putBack_pool]; simp [poolOf, hu, hcap, hs]
+  | leaf =>
+    have hle : nd.left = EMPTY := hl
+    have hne0 : (EMPTY != EMPTY) = false := by simp
+    cases rD with
+    | node cr lr sr er rr =>
+      simp only [unlinkM] at hm
+      cases hfu : fixUp KK true with
+      | none => simp [hfu] at hm
+      | some K2 =>
+      simp only [hfu, Option.map_some, Option.some.injEq, Prod.mk.injEq] at hm
+      obtain ⟨rfl, rfl⟩ := hm
+      have hri : nd.right = sr := hrr.1
+      rw [hri] at hrr
+      have := node_lt hrr.2.choose_spec.1
+      have hne : (sr != EMPTY) = true := by simp; omega
+      obtain ⟨a', h1, h2, hu, hcap, hd, hs⟩ := unlink_child hsize hc hdel hrr (by simp) (by slots_tac hnd) hfu
+      refine ⟨a'.putBack del, ?_, Rep.congr (a := a') (fun _ _ => rfl) h2, ?_, by simp [Arena.putBack, hs],
+        by simp [Arena.putBack, hd]⟩
+      · simp only [Arena.unlink, T.rootIdx, hne0, hne, Bool.false_eq_true, if_false, if_true, Option.bind_eq_bind,
+          Option.pure_def, Option.bind_assoc] at h1 ⊢
+        rw [← Option.bind_assoc, h1]
+        rfl
+      · rw [putBack_pool]; simp [poolOf, hu, hcap, hs]
+    | leaf =>
+      have hre : nd.right = EMPTY := hrr
+      cases KK with
+      | nil =>
+        simp only [unlinkM, Option.some.injEq, Prod.mk.injEq] at hm
+        obtain ⟨rfl, rfl⟩ := hm
+        obtain ⟨hp, hroot⟩ := hc
+        subst hp
+        refine ⟨({ a with root := EMPTY } : Arena V).putBack del, ?_, rfl, ?_, rfl, rfl⟩
+        · simp [Arena.unlink, T.rootIdx]
+        · rw [putBack_pool]; rfl
+      | cons f K =>
+        have hp : p = f.s := hc.1
+        subst hp
+        have hplt : f.s < a.nodes.size := hc.slots_lt f.s (by simp [ctxSlots])
+        have hpne : (f.s == EMPTY) = false := by simp; omega
+        have hndc : (ctxSlots (f :: K)).Nodup := by slots_tac hnd
+        have hdsib : del ∉ f.sib.slots := by slots_tac hnd
+        have hdne : del ≠ EMPTY := by omega
+        cases cD with
+        | red =>
+          simp only [unlinkM, show (Color.red == Color.black) = false from rfl, fixUp, fixUpD_false, Option.map_some,
+            Option.some.injEq, Prod.mk.injEq] at hm
+          obtain ⟨rfl, rfl⟩ := hm
+          obtain ⟨a1, h1, hc1, _, hroot1, hu1, hcap1, hd1, hs1⟩ :=
+            removeParentsChild_ctx (new := EMPTY) hsize hc hdsib hdne hndc
+          refine ⟨a1.putBack del, ?_, Rep.congr (a := a1) (fun _ _ => rfl) (Rep.plug hc1 (rfl : Rep a1 EMPTY f.s .leaf)), ?_,
+            by simp [Arena.putBack, hs1], by simp [Arena.putBack, hd1]⟩
+          · simp only [Arena.unlink, T.rootIdx, hne0, Bool.false_eq_true, if_false, hpne, isRedC,
+              show (Color.red == Color.red) = true from rfl, Bool.not_true, Option.bind_eq_bind, Option.pure_def, h1,
+              Option.bind_some]
+          · rw [putBack_pool]; simp [poolOf, hu1, hcap1, hs1]
+        | black =>
+          simp only [unlinkM, show (Color.black == Color.black) = true from rfl, fixUp] at hm
+          cases hfu : fixUpD (f :: K) true with
+          | none => simp [hfu] at hm
+          | some x =>
+          obtain ⟨K2, d2⟩ := x
+          simp only [hfu, Option.map_some, Option.some.injEq, Prod.mk.injEq] at hm
+          obtain ⟨rfl, rfl⟩ := hm
+          -- the NIL scratch node in slot 0
+          obtain ⟨n0, hn0⟩ : ∃ n0, a.node 0 = some n0 := ⟨a.nodes[0], by simp [Arena.node, h0]⟩
+          have h0k : 0 ∉ ctxSlots (f :: K) := by slots_tac h0s
+          have h0d : (0 : Nat) ≠ del := by slots_tac h0s
+          let a1 := a.upd 0 fun m => { m with parent := f.s, left := EMPTY, right := EMPTY, red := true }
+          have hc1 : RepCtx a1 (f :: K) del f.s := hc.upd_other _ h0k
+          obtain ⟨a2, h2, hc2, hoth2, hroot2, hu2, hcap2, hd2, hs2⟩ :=
+            removeParentsChild_ctx (a := a1) (new := 0) (by simpa [a1] using hsize) hc1 hdsib hdne hndc
+          have h0f : (0 : Nat) ≠ f.s := by
+            intro h; apply h0k; simp [ctxSlots, ← h]
+          have h20 : a2.node 0 = some { n0 with parent := f.s, left := EMPTY, right := EMPTY, red := true } := by
+            rw [hoth2 0 h0f]; simp [a1, hn0]
+          have hN : Rep a2 0 f.s (.node .red .leaf 0 n0.ent .leaf) := ⟨rfl, _, h20, rfl, rfl, rfl, rfl, rfl⟩
+          have hsize2 : a2.nodes.size ≤ EMPTY := by rw [hs2]; simpa [a1] using hsize
+          have hfuel : (f :: K).length < a.nodes.size + 1 := ctx_fuel hc hndc
+          obtain ⟨a3, h3, hc3, hn3, hu3, hcap3, hd3, hs3⟩ := fixDelete_rep (a.nodes.size + 1) a2 (f :: K) _ 0 f.s
+            hsize2 hfuel hc2 hN (by simp) (by simpa [T.slots_node] using List.nodup_cons.mpr ⟨h0k, hndc⟩) K2 d2 hfu
+          obtain ⟨_, n3, hn3', hn3p, _⟩ := hn3
+          -- unlink the scratch node again
+          cases K2 with
+          | nil => obtain ⟨hpe, _⟩ := hc3; omega
+          | cons f' K'' =>
+            have hp' : f.s = f'.s := hc3.1
+            have hperm := fixUpD_slots hfu
+            have hndc' : (ctxSlots (f' :: K'')).Nodup := hperm.nodup_iff.mpr hndc
+            have h0k' : 0 ∉ ctxSlots (f' :: K'') := fun h => h0k (hperm.mem_iff.mp h)
+            have h0sib : (0 : Nat) ∉ f'.sib.slots := by
+              intro h; apply h0k'; simp [ctxSlots, h]
+            rw [hp'] at hc3
+            obtain ⟨a4, h4, hc4, _, _, hu4, hcap4, hd4, hs4⟩ :=
+              removeParentsChild_ctx (a := a3) (new := EMPTY) (by rw [hs3]; exact hsize2) hc3 h0sib (by decide) hndc'
+            refine ⟨a4.putBack del, ?_, Rep.congr (a := a4) (fun _ _ => rfl) (Rep.plug hc4 (rfl : Rep a4 EMPTY f'.s .leaf)), ?_, ?_, ?_⟩
+            · simp only [Arena.unlink, T.rootIdx, hne0, Bool.false_eq_true, if_false, hpne, isRedC,
+                show (Color.black == Color.red) = false from rfl, Bool.not_false, if_true, Option.bind_eq_bind,
+                Option.pure_def]
+              rw [Arena.modify_eq_upd _ h0]
+              simp only [Option.bind_some]
+              have h2' : a1.removeParentsChild f.s del 0 = some a2 := h2
+              simp only [a1] at h2'
+              rw [h2']
+              simp only [Option.bind_some, h3, hn3', hn3p, hp', h4]
+            · rw [putBack_pool]; simp [poolOf, hu4, hcap4, hs4, hu3, hcap3, hs3, hu2, hcap2, hs2, a1]
+            · simp [Arena.putBack, hs4, hs3, hs2, a1]
+            · simp [Arena.putBack, hd4, hd3, hd2, a1]
+
+end ITree
